@@ -34,6 +34,7 @@ type c13World struct {
 	units []*schema.Unit
 	uni   *plug.Universe
 	names []string // proto file names of usable units, sorted
+	groups [][]string // files that import each other inside the universe
 	mu    sync.Mutex
 	cache map[string]map[string]string // request key -> file name -> content
 }
@@ -79,6 +80,35 @@ func c13World_(ctx *Ctx) (*c13World, error) {
 		w.names = append(w.names, u.File.P.GetName())
 	}
 	sort.Strings(w.names)
+	// groups of files that depend on each other (importer + its imports inside the
+	// universe; for importers of several files also importer + each single import)
+	usable := map[string]bool{}
+	for _, n := range w.names {
+		usable[n] = true
+	}
+	for _, u := range w.units {
+		if !usable[u.File.P.GetName()] {
+			continue
+		}
+		var deps []string
+		for _, d := range u.File.P.Dependency {
+			if usable[d] {
+				deps = append(deps, d)
+			}
+		}
+		if len(deps) == 0 {
+			continue
+		}
+		w.groups = append(w.groups, append([]string{u.File.P.GetName()}, deps...))
+		if len(deps) > 1 {
+			for _, d := range deps {
+				w.groups = append(w.groups, []string{u.File.P.GetName(), d})
+			}
+		}
+	}
+	if len(w.groups) == 0 {
+		w.groups = [][]string{{w.names[0]}}
+	}
 	c13w = w
 	return w, nil
 }
@@ -149,10 +179,8 @@ func runC13(ctx *Ctx) {
 		}
 		// files that import each other (across Go packages, or as siblings of one
 		// Go package) must often be generated together
-		if rapid.IntRange(0, 2).Draw(rt, "pair") == 0 {
-			pairs := [][]string{{"verif/impa.proto", "verif/impb.proto"}, {"verif/alpha/types.proto", "verif/beta/types.proto"},
-				{"verif/samepkg/a_main.proto", "verif/samepkg/m_types.proto"}, {"verif/samepkg/a_main.proto", "verif/samepkg/z_types.proto"},
-				{"verif/samepkg/a_main.proto", "verif/samepkg/m_types.proto", "verif/samepkg/z_types.proto"}}
+		if rapid.IntRange(0, 1).Draw(rt, "pair") == 0 {
+			pairs := w.groups
 			for _, n := range pairs[rapid.IntRange(0, len(pairs)-1).Draw(rt, "whichpair")] {
 				has, usable := false, false
 				for _, o := range out {
@@ -168,6 +196,19 @@ func runC13(ctx *Ctx) {
 			rapid.Permutation(out).Draw(rt, "order")
 		}
 		return out
+	}
+	if ctx.Shard == 0 {
+		// one request for every usable file at once, repeated in fresh processes
+		c := &Case{Sub: "repeat", Args: map[string]string{"files": strings.Join(w.names, ","), "param": "", "k": fmt.Sprint(ctx.N(6, 40))}}
+		ctx.Eval(1)
+		if err := safely(func() error { return checkC13(ctx, c) }); err != nil {
+			if strings.HasPrefix(err.Error(), "HARNESS") {
+				fmt.Printf("HARNESS-ERROR %v\n", err)
+			} else {
+				ctx.Violation(c, err.Error())
+			}
+			ctx.T.Fail()
+		}
 	}
 	ctx.CheckRapid("repeat", per(24, 200), func(rt *rapid.T) *Case {
 		files := pick(rt, 1, 4)
